@@ -113,7 +113,9 @@ def _norm_case(draw):
             "d_old": [[draw(u1) for _ in range(npair)] for _ in range(B)],
             "d_new": [[draw(u1) for _ in range(npair)] for _ in range(B)],
             "amp": [[[draw(u1), draw(u1)] for _ in range(n)] for _ in range(B)],
-            "scale": scale}
+            "scale": scale,
+            # per-trajectory multiplier: lets one member sit on a coupling spike while a neighbour is ordinary
+            "rs": [draw(st.sampled_from([1.0, 1.0, 0.02, 30.0])) for _ in range(B)]}
     for b in range(B):
         if all(abs(v) < 1e-6 for pr in case["amp"][b] for v in pr):
             case["amp"][b][0][0] = 1.0
@@ -126,11 +128,15 @@ def _caches(case, rows=None):
     gap = 5.0 * 10.0 ** case["gap_exp"]
     e0 = np.array([[gap * i + 0.3 * gap * case["e"][b][i] for i in range(n)] for b in rows])
     e1 = e0 + gap * np.array([case["de"][b] for b in rows])
-    Dold = np.array([antisym(case["d_old"][b], n, case["scale"]) for b in rows])
+    rs = case.get("rs") or [1.0] * case["B"]
+    # effective coupling scale per trajectory, capped at the 100/fs spike magnitude the property quantifies over (beyond
+    # that a user-forced small sub-step count makes explicit RK4 overflow to inf/NaN, which is outside the stated domain)
+    sc = [min(case["scale"] * rs[b], 100.0) for b in range(case["B"])]
+    Dold = np.array([antisym(case["d_old"][b], n, sc[b]) for b in rows])
     if case["kind"] == "jump":
-        Dnew = np.array([antisym(case["d_new"][b], n, case["scale"]) for b in rows])
+        Dnew = np.array([antisym(case["d_new"][b], n, sc[b]) for b in rows])
     else:
-        Dnew = Dold + 0.1 * np.array([antisym(case["d_new"][b], n, case["scale"]) for b in rows])
+        Dnew = Dold + 0.1 * np.array([antisym(case["d_new"][b], n, sc[b]) for b in rows])
     t = lambda a: torch.tensor(a, dtype=torch.float64)  # noqa: E731
     return {"energies": t(e0), "nac_dot": t(Dold)}, {"energies": t(e1), "nac_dot": t(Dnew)}
 
@@ -152,7 +158,7 @@ def _propagate(case, sub, rows=None):
 
 class Norm(SubCheck):
     name = "norm"
-    budget = {"quick": 12000, "thorough": 400000}
+    budget = {"quick": 4800, "thorough": 200000}
     weight = 1.0
 
     def strategy(self, tier):
@@ -275,12 +281,23 @@ def _fixed_rand(values):
         torch.rand = orig
 
 
+def _raw_rowsum(case, b):
+    """sum_j max(0, hop integral_ij / pop_i) of trajectory b computed alone (before the code's sum>1 guard)"""
+    d1 = make_fssh(1, case["n"], case["dt"], case["sub"], [case["active"][b]])
+    set_amplitudes(d1, [case["amp"][b]])
+    co1, cn1 = _caches(case, [b])
+    d1._propagate_electronic(co1, cn1, substeps=case["sub"])
+    pop = float(d1.populations[0, case["active"][b]])
+    row = d1._hop_integral[0, case["active"][b]].numpy() / max(pop, 1e-10)
+    return float(np.clip(row, 0, None).sum())
+
+
 @st.composite
 def _prob_case(draw):
     c = draw(_norm_case())
     c["active"] = [draw(st.integers(0, c["n"] - 1)) for _ in range(c["B"])]
     c["r"] = [draw(st.integers(0, 1000)) / 1000.0 for _ in range(c["B"])]
-    c["sub"] = draw(st.sampled_from([None, 8]))
+    c["sub"] = draw(st.sampled_from([None, 8, 8, 16]))
     return c
 
 
@@ -324,6 +341,27 @@ class HopProb(SubCheck):
                 return Outcome.fail("hop_target_selection", f"row {b}: target {tg[b]}, cumulative rule gives {want} (r={case['r'][b]})", labels, True)
             if tg[b] == act[b] and g[b, act[b]] == 0 and case["r"][b] > 0:
                 return Outcome.fail("hop_to_self", f"row {b}: hop to the active state itself", labels, True)
+        # isolation ("nothing done to one trajectory of a batch affects another"): with a fixed sub-step count the
+        # propagation is bitwise batch independent (asserted in `norm`), so the hop probabilities and the selected target
+        # of trajectory b alone must equal those it gets inside the batch.
+        if case["B"] > 1 and case["sub"] is not None:
+            renorm = [bool(x) for x in (np.array([_raw_rowsum(case, b) for b in range(case["B"])]) > 1.0)]
+            if any(renorm) and not all(renorm):
+                labels.append("mixed_spike_batch")
+            for b in range(case["B"]):
+                d1 = make_fssh(1, case["n"], case["dt"], case["sub"], [case["active"][b]])
+                set_amplitudes(d1, [case["amp"][b]])
+                co1, cn1 = _caches(case, [b])
+                d1._propagate_electronic(co1, cn1, substeps=case["sub"])
+                st1 = []
+                with _capture_cumsum(st1), _fixed_rand([case["r"][b]]):
+                    t1 = d1._attempt_hop()
+                if st1 and not np.array_equal(st1[-1].numpy()[0], g[b]):
+                    dd = float(np.abs(st1[-1].numpy()[0] - g[b]).max())
+                    return Outcome.fail("isolation_hop_probability", f"trajectory {b}: hop probabilities alone vs in batch differ by {dd:.3e} "
+                                        f"(alone sum {st1[-1].numpy()[0].sum():.4f}, batched sum {g[b].sum():.4f})", labels, True)
+                if int(t1[0]) != int(tg[b]):
+                    return Outcome.fail("isolation_hop_target", f"trajectory {b}: target alone {int(t1[0])} vs batched {int(tg[b])} for the same draw", labels, True)
         return Outcome.ok(case["scale"] > 0 and g.max() > 0, labels, gmax=float(g.max()))
 
 
@@ -420,8 +458,13 @@ class Rescale(SubCheck):
             return Outcome.fail("forbidden_hop_accepted", f"hop accepted although no real velocity adjustment exists (discriminant {rad:.3e}, d2/m {d2m:.3e})", labels, True)
         # direction: dv_a parallel to d_a/m_a for every atom
         cr = np.cross(dv, dm)
+        # dv is obtained here as v_after - v_before, a difference of stored doubles: its absolute round-off is ~eps*|v|,
+        # which for a tiny hop (dE = 1e-6 eV -> |dv| ~ 1e-8) is 3e-10 relative. (The first version used a purely relative
+        # 1e-10 bound and raised a false alarm on exactly such a case; the code was right.)
+        vmax = float(np.abs(v0[mol].numpy()).max())
         scale = max(1e-300, float(np.abs(dv).max()) * float(np.abs(dm).max()))
-        if float(np.abs(cr).max()) > 1e-10 * scale and float(np.abs(dv).max()) > 0:
+        floor = 16 * 2.2e-16 * vmax * float(np.abs(dm).max())
+        if float(np.abs(cr).max()) > 1e-10 * scale + floor and float(np.abs(dv).max()) > 0:
             return Outcome.fail("rescale_direction", "velocity change not along the mass-weighted coupling vector", labels, True)
         if minv[mol].min() == 0.0 and np.abs(dv[minv[mol] == 0.0]).max() != 0.0:
             return Outcome.fail("padding_moves", "padding atom velocity changed by a hop", labels, True)
@@ -437,7 +480,8 @@ class Rescale(SubCheck):
         alpha = float((dv * dm).sum() / max((dm * dm).sum(), 1e-300))
         r1, r2 = (-vd + math.sqrt(max(rad, 0))) / d2m, (-vd - math.sqrt(max(rad, 0))) / d2m
         small = min(abs(r1), abs(r2))
-        if abs(abs(alpha) - small) > 1e-8 * max(small, abs(alpha), 1e-300) + 1e-300:
+        afloor = 16 * 2.2e-16 * vmax / max(float(np.abs(dm).max()), 1e-300)  # same cancellation, expressed in alpha
+        if abs(abs(alpha) - small) > 1e-8 * max(small, abs(alpha), 1e-300) + afloor:
             return Outcome.fail("larger_root_chosen" + orth, f"|alpha| = {abs(alpha):.6e}, roots {r1:.6e}, {r2:.6e}", labels, True)
         return Outcome.ok(True, labels, energy_err=err)
 
@@ -485,6 +529,207 @@ def _expm_antisym(vals, n, scale):
     A = antisym(vals, n, scale)
     w, V = np.linalg.eig(A)
     return np.real(V @ np.diag(np.exp(w)) @ np.linalg.inv(V))
+
+
+# ------------------------------------------------------------------ the real hop decision + velocity adjustment in a batch
+@st.composite
+def _update_case(draw):
+    n = draw(st.integers(2, 5))
+    B = draw(st.integers(1, 5))
+    nat = draw(st.integers(1, 3))
+    rows = []
+    for _ in range(B):
+        act = draw(st.integers(0, n - 1))
+        hop = draw(st.sampled_from(["none", "hop", "hop"]))
+        tgt = draw(st.integers(0, n - 2))
+        tgt = tgt if tgt < act else tgt + 1
+        rows.append({"active": act, "hop": hop, "target": tgt,
+                     "e": sorted(draw(st.integers(0, 4000)) / 1000.0 for _ in range(n)),
+                     "v": [[draw(u1) * 0.02 for _ in range(3)] for _ in range(nat)],
+                     "d": [[draw(u1) for _ in range(3)] for _ in range(nat)],
+                     "m": [draw(st.sampled_from([1.008, 12.011, 15.999, 32.06])) for _ in range(nat)],
+                     "amp": [[draw(u1), draw(u1)] for _ in range(n)]})
+    return {"n": n, "B": B, "nat": nat, "rows": rows, "decohere": draw(st.booleans())}
+
+
+def _run_update(case, members):
+    """drive the repository's _after_electronic_update for the given batch members; returns per-member results"""
+    ND, C = _mods()
+    n, nat = case["n"], case["nat"]
+    rows = [case["rows"][b] for b in members]
+    B = len(rows)
+    d = make_fssh(B, n, 0.1, 4, [r["active"] for r in rows], decohere=case["decohere"])
+    amps = []
+    for r in rows:
+        a = [list(x) for x in r["amp"]]
+        if all(abs(v) < 1e-6 for pr in a for v in pr):
+            a[0][0] = 1.0
+        if abs(a[r["active"]][0]) + abs(a[r["active"]][1]) < 1e-3:
+            a[r["active"]][0] = 0.5   # the active state carries population
+        amps.append(a)
+    set_amplitudes(d, amps)
+    # hop integral: members that are to attempt a hop get probability 1 towards their target, the others 0
+    H = torch.zeros(B, n, n, dtype=torch.float64)
+    for b, r in enumerate(rows):
+        if r["hop"] == "hop":
+            H[b, r["active"], r["target"]] = 10.0
+    d._hop_integral = H
+    exc = torch.tensor([r["e"] for r in rows], dtype=torch.float64)
+    vel = torch.tensor([r["v"] for r in rows], dtype=torch.float64)
+    minv = torch.tensor([[1.0 / m for m in r["m"]] for r in rows], dtype=torch.float64).unsqueeze(-1)
+    dv = torch.tensor([r["d"] for r in rows], dtype=torch.float64)
+    molecule = SimpleNamespace(coordinates=torch.zeros(B, nat, 3, dtype=torch.float64), velocities=vel.clone(), mass_inverse=minv,
+                               Etot=torch.zeros(B, dtype=torch.float64) + exc[torch.arange(B), torch.tensor([r["active"] for r in rows])],
+                               force=torch.zeros(B, nat, 3, dtype=torch.float64), acc=None, active_state=None)
+
+    def nacr(mol, pairs):  # same signature and return format as the repository's _compute_NACR_for_hop
+        return {(s1 - 1, s2 - 1): dv.clone() for (s1, s2) in pairs}
+
+    d._compute_NACR_for_hop = nacr
+    d._recompute_active_force = lambda m: None
+    with _fixed_rand([0.5] * B):
+        d._after_electronic_update(molecule, exc, step=0)
+    out = []
+    for b, r in enumerate(rows):
+        out.append({"active": int(d._active_states[b]), "v": molecule.velocities[b].clone(), "amp": d._amp_phase[b].clone(),
+                    "v0": vel[b].clone(), "events": [(e.from_state, e.to_state, e.accepted) for e in d.hop_log if e.mol_index == b]})
+    return out
+
+
+class Update(SubCheck):
+    """_after_electronic_update on batches with mixed active states, hopping and non-hopping members, different gaps."""
+    name = "update"
+    budget = {"quick": 6000, "thorough": 150000}
+    weight = 1.0
+
+    def strategy(self, tier):
+        return _update_case()
+
+    def oracle(self, case):
+        ND, C = _mods()
+        KES = C.KINETIC_ENERGY_SCALE
+        B = case["B"]
+        hops = [r["hop"] == "hop" for r in case["rows"]]
+        labels = ["B:%d" % B, "n:%d" % case["n"], "hoppers:%d" % sum(hops)]
+        if any(hops) and not all(hops) and not hops[0]:
+            labels.append("nonhopper_precedes_hopper")
+        try:
+            res = _run_update(case, list(range(B)))
+        except Exception as e:
+            return Outcome.fail(f"exception:{type(e).__name__}", f"{type(e).__name__}: {e}", labels)
+        attempted = False
+        for b, (r, o) in enumerate(zip(case["rows"], res)):
+            minv = 1.0 / np.array(r["m"])
+            if r["hop"] != "hop":
+                # nothing done to other trajectories may affect this one: bitwise untouched
+                if o["active"] != r["active"] or not torch.equal(o["v"], o["v0"]):
+                    return Outcome.fail("isolation_update", f"trajectory {b} did not attempt a hop but its state/velocities changed", labels, True)
+                continue
+            attempted = True
+            dE = r["e"][r["target"]] - r["e"][r["active"]]
+            ek0 = _ek(o["v0"].numpy(), minv, KES)
+            ek1 = _ek(o["v"].numpy(), minv, KES)
+            if o["active"] == r["target"]:
+                err = abs((ek1 - ek0) + dE)
+                if err > 1e-10 * max(abs(dE), ek0, ek1, 1e-12):
+                    vd = float((o["v0"].numpy() * np.array(r["d"])).sum())
+                    tag = ":v_dot_d_zero" if vd == 0.0 else ""
+                    return Outcome.fail("hop_energy_not_conserved" + tag, f"trajectory {b} of {B}: accepted hop {r['active']}->{r['target']} (own gap {dE:+.4f} eV): dEk + dE = {ek1 - ek0 + dE:+.4e} eV",
+                                        labels, True, err=err)
+            elif o["active"] == r["active"]:
+                if not torch.equal(o["v"], o["v0"]):
+                    return Outcome.fail("frustrated_changes_velocity", f"trajectory {b}: frustrated hop changed velocities", labels, True)
+            else:
+                return Outcome.fail("hop_to_unrequested_state", f"trajectory {b}: active {r['active']} -> {o['active']}, requested {r['target']}", labels, True)
+        # differential isolation: every member alone gives bitwise the same outcome as inside the batch
+        if B > 1:
+            for b in range(B):
+                alone = _run_update(case, [b])[0]
+                if alone["active"] != res[b]["active"] or not torch.equal(alone["v"], res[b]["v"]) or not torch.equal(alone["amp"], res[b]["amp"]):
+                    dvv = float((alone["v"] - res[b]["v"]).abs().max())
+                    return Outcome.fail("isolation_update_alone_vs_batch", f"trajectory {b}: alone -> state {alone['active']}, in batch -> state {res[b]['active']}; max |dv| = {dvv:.3e}", labels, True)
+        return Outcome.ok(attempted, labels)
+
+
+def _overlap_inputs(n, B, rows, mixamp):
+    nov = n + 2
+    ref = np.zeros((B, n, nov))
+    tgt = np.zeros((B, n, nov))
+    for b, r in enumerate(rows):
+        ref[b, :, :n] = np.eye(n)
+        Smat = np.zeros((n, n))
+        for i in range(n):
+            Smat[i, r["p"][i]] = r["signs"][i]          # old state i has become new state p(i)
+        Smat = Smat @ _expm_antisym(r["mix"], n, mixamp)
+        tgt[b, :, :n] = Smat.T                             # overlap_ij = |<ref_i|tgt_j>| = |S_ij|
+    return ref, tgt
+
+
+@st.composite
+def _history_case(draw):
+    n = draw(st.integers(3, 6))
+    if n not in _PERMS:
+        _PERMS[n] = _perms_in_window(n)
+    # transpositions / identity only: the recorded >=3-cycle finding is excluded by construction so that the search
+    # continues behind it (counted as excluded_by_construction in the evidence through the label)
+    simple = [p for p in _PERMS[n] if max(_cycle_type(p) or (1,)) <= 2]
+    B = draw(st.integers(1, 3))
+    events = []
+    for _ in range(draw(st.integers(2, 4))):
+        events.append([{"p": list(draw(st.sampled_from(simple))), "signs": [draw(st.sampled_from([1, -1])) for _ in range(n)],
+                        "mix": [draw(u1) for _ in range(n * (n - 1) // 2)]} for _ in range(B)])
+    return {"n": n, "B": B, "events": events, "mixamp": draw(st.sampled_from([0.0, 0.02])),
+            "active": [draw(st.integers(0, n - 1)) for _ in range(B)]}
+
+
+class CrossingHistory(SubCheck):
+    """History independence of trivial-crossing detection: the relabelling (and the zeroed couplings) computed for an
+    event must not depend on which events the same dynamics object has processed before. Reference = a fresh object."""
+    name = "crossing_history"
+    budget = {"quick": 5000, "thorough": 120000}
+    weight = 1.0
+
+    def strategy(self, tier):
+        return _history_case()
+
+    @staticmethod
+    def _detect(d, n, B, rows, mixamp):
+        ref, tgt = _overlap_inputs(n, B, rows, mixamp)
+        nd = torch.ones(B, n, n, dtype=torch.float64) - torch.eye(n, dtype=torch.float64)
+        co = {"cis_amp": torch.tensor(ref), "nac_dot": nd.clone()}
+        cn = {"cis_amp": torch.tensor(tgt), "nac_dot": nd.clone()}
+        sw = d._detect_crossings(co, cn)
+        return (None if sw is None else sw.clone()), co["nac_dot"].clone(), cn["nac_dot"].clone()
+
+    def oracle(self, case):
+        n, B = case["n"], case["B"]
+        labels = ["n:%d" % n, "B:%d" % B, "events:%d" % len(case["events"]), "excluded_by_construction:cycles>=3"]
+        dh = make_fssh(B, n, 0.1, 4, case["active"])
+        distinct = len({json_key(ev) for ev in case["events"]}) > 1
+        for k, ev in enumerate(case["events"]):
+            try:
+                sw_h, co_h, cn_h = self._detect(dh, n, B, ev, case["mixamp"])
+                df = make_fssh(B, n, 0.1, 4, case["active"])
+                sw_f, co_f, cn_f = self._detect(df, n, B, ev, case["mixamp"])
+            except Exception as e:
+                return Outcome.fail(f"exception:{type(e).__name__}", f"{type(e).__name__}: {e}", labels)
+            same = (sw_h is None and sw_f is None) or (sw_h is not None and sw_f is not None and torch.equal(sw_h, sw_f))
+            if not same:
+                return Outcome.fail("crossing_detection_depends_on_history",
+                                    f"event {k}: relabelling after {k} earlier events {None if sw_h is None else sw_h.tolist()} vs fresh object {None if sw_f is None else sw_f.tolist()} "
+                                    f"(permutations of this event {[r['p'] for r in ev]})", labels, True)
+            if not (torch.equal(co_h, co_f) and torch.equal(cn_h, cn_f)):
+                return Outcome.fail("zeroed_couplings_depend_on_history", f"event {k}: couplings zeroed for the swapped pairs differ from a fresh object's", labels, True)
+            if sw_h is not None:
+                for b in range(B):
+                    perm = [int(sw_h[b, i]) if sw_h[b, i] >= 0 else i for i in range(n)]
+                    if sorted(perm) != list(range(n)):
+                        return Outcome.fail("relabelling_not_a_permutation:transpositions_only", f"event {k} row {b}: {perm}", labels, True)
+        return Outcome.ok(distinct, labels)
+
+
+def json_key(ev):
+    return str([(tuple(r["p"]), tuple(r["signs"])) for r in ev])
 
 
 class Crossings(SubCheck):
@@ -567,4 +812,4 @@ class Crossings(SubCheck):
         return Outcome.ok(bool(cyc), labels)
 
 
-SUBCHECKS = [Norm(), HopProb(), Rescale(), Crossings()]
+SUBCHECKS = [Norm(), HopProb(), Rescale(), Crossings(), CrossingHistory(), Update()]
